@@ -40,7 +40,14 @@ def main():
                 needs_to_manifest=(re.search(r'(?is)(what it (needs|takes)[^\n]*\n.*?)(\n#|\n\*\*[A-Z]|\Z)', notes) or [None, notes[:600]])[1][:900],
                 confirmed_in_scratch_worktree=('SEED-CONFIRMED' in verify), confirmation_log=verify[-700:], runs=runs,
                 caught_by=[r['cmd'].split('./check ')[1].split()[0] for r in runs if r['caught']])
-    json.dump(meta, open(os.path.join(dst, 'meta.json'), 'w'), indent=1)
+    old = os.path.join(dst, 'meta.json')
+    if os.path.exists(old):
+        try:
+            h = json.load(open(old)).get('evaluation_history')
+            if h: meta['evaluation_history'] = h
+        except ValueError:
+            pass
+    json.dump(meta, open(old, 'w'), indent=1)
 
 
 if __name__ == '__main__':
